@@ -23,7 +23,7 @@ META = {
             "unknown ids ignored) and a reference proxy; TLC checks that the proxy's view equals the client's view "
             "after every operation and exports operation histories over API add (5 entry templates incl. a second "
             "profile; also several entries in one Add call, the same id twice) / set attribute / removeAll and backend upsert (8 action sets x 8 entry lists) / remove for two "
-            "uuids and viewer protocols 1.19.3, 1.21.2, 1.21.4 (exhaustive for 2 operations, simulated up to 6). Each "
+            "uuids and viewer protocols 1.19.3, 1.21, 1.21.2, 1.21.4 - both sides of every version switch of the tab list - (exhaustive for 2 operations, simulated up to 6). Each "
             "history is replayed on gate's real tab list; every packet it sends is encoded by gate's codec and decoded "
             "by an independent vanilla-layout parser, and TLC applies the decoded packets to the client model and "
             "compares with TabList.Entries() after every call. Histories are the quantifier: exhaustive pairs plus "
@@ -41,9 +41,10 @@ META = {
 }
 
 
-def cfg(versions, maxlen, emit=True):
-    return ("SPECIFICATION Spec\nCONSTANTS\n  Versions = {%s}\n  MaxLen = %d\n  InPlaceProfile = FALSE\n"
-            "INVARIANTS Match%s\n" % (", ".join(map(str, versions)), maxlen, " Emit" if emit else ""))
+def cfg(versions, full, maxlen, emit=True):
+    return ("SPECIFICATION Spec\nCONSTANTS\n  Versions = {%s}\n  FullVersions = {%s}\n  MaxLen = %d\n"
+            "  InPlaceProfile = FALSE\nINVARIANTS Match%s\n"
+            % (", ".join(map(str, versions)), ", ".join(map(str, full)), maxlen, " Emit" if emit else ""))
 
 
 def opdesc(r):
@@ -67,23 +68,27 @@ def run(ctx):
         raise vlib.ToolError("broken variant (in-place profile replacement) was not rejected by the model: %s" % r.violated)
     ctx.log("broken variant rejected by Match")
     rnd = random.Random(ctx.seed)
-    vers = [761, 768, 769]
+    # both sides of every version switch of the tab list: NBT display names (765), list order (768), hat (769)
+    vers = [761, 767, 768, 769]
     hists, states = [], 0
     # exhaustive pairs
-    r = ctx.tlc("TabList", cfg_text=cfg(ctx.pick([769], vers), 2), timeout=900)
+    # quick: the whole alphabet on 768 (everything that is compared exists there), API operations on all versions
+    r = ctx.tlc("TabList", cfg_text=cfg(vers, ctx.pick([768], vers), 2), timeout=900)
     pairs = r.printed_json("HIST")
     states += r.distinct
     ctx.log("TabList.tla: %d states, %d histories of 2 operations, Match holds" % (r.distinct, len(pairs)))
     if ctx.quick:
         # always keep the multi-entry Add calls on a fresh list; a seeded sample of the rest
-        keep = [h for h in pairs if h["h"][0]["op"] == "addmany" and h["h"][1]["op"] == "removeAll"]
+        # ... and every re-add of an id (any two templates) on every version
+        keep = [h for h in pairs if (h["h"][0]["op"] == "addmany" and h["h"][1]["op"] == "removeAll")
+                or (h["h"][0]["op"] == "add" and h["h"][1]["op"] == "add" and h["h"][0]["id"] == h["h"][1]["id"])]
         rest = [h for h in pairs if h not in keep]
         rnd.shuffle(rest)
-        pairs = keep + rest[:1000]
+        pairs = keep + rest[:800]
     hists += pairs
     # simulated longer ones
     sim, cap, depth = ctx.pick((8, 500, 5), (300, 20000, 6))
-    r = ctx.tlc("TabList", cfg_text=cfg(vers, depth), workers=1, timeout=900, simulate=sim, depth=depth + 1)
+    r = ctx.tlc("TabList", cfg_text=cfg(vers, vers, depth), workers=1, timeout=900, simulate=sim, depth=depth + 1)
     longer = r.printed_json("HIST")
     states += r.distinct
     rnd.shuffle(longer)
